@@ -118,6 +118,8 @@ asn1c_make_identifier(enum ami_flags_e flags, asn1p_expr_t *expr, ...) {
 	nextstr = "";
 	for(str = 0; str || nextstr; str = nextstr) {
 		int subst_made = 0;
+		int check_reserved;
+		char *part;
 		nextstr = *(psptr) ? *(psptr++) : va_arg(ap, char *);
 
 		if(str == 0) {
@@ -137,14 +139,12 @@ asn1c_make_identifier(enum ami_flags_e flags, asn1p_expr_t *expr, ...) {
 		nodelimiter = 0;
 
 		/*
-		 * If it is a single argument, check that it does not clash
-		 * with C/C++ language keywords.
+		 * If it is a single argument, the resulting identifier is checked
+		 * against the C/C++ language keywords below.
 		 */
-		if((flags & AMI_CHECK_RESERVED)
-		&& str == first && !nextstr && reserved_keyword(str)) {
-			*p++ = toupper(*str++);
-			/* Fall through */
-		}
+		check_reserved = (flags & AMI_CHECK_RESERVED)
+				&& str == first && !nextstr;
+		part = p;
 
 		for(; *str; str++) {
 			if(isalnum(*str)) {
@@ -158,6 +158,17 @@ asn1c_make_identifier(enum ami_flags_e flags, asn1p_expr_t *expr, ...) {
 					*p++ = '_';
 				}
 			}
+		}
+
+		/*
+		 * The keyword table is consulted after the unsafe characters
+		 * have been converted: "and-eq" is emitted as "and_eq",
+		 * "wchar-t" as "wchar_t".
+		 */
+		if(check_reserved) {
+			*p = '\0';
+			if(reserved_keyword(part))
+				*part = toupper(*part);
 		}
 	}
 	va_end(ap);
